@@ -467,7 +467,7 @@ def evaluate(ctx, tables, cases: List[Dict[str, Any]]) -> List[Tuple[Dict[str, A
                                    "translator injects them, do not compile with their own include files against the stand-in headers",
                                    "units": {f: u for _, f, u in prog.units.values()}, "g++": first_error(erru)})
                 return [(c, {"err": "not compiled"}, None) for c in cases]
-            out = ""
+            out, err = "", ""  # `err` was g++'s diagnostics of the whole program; from here on it means "a RUN failed"
             for i, c in enumerate(cases):  # which case is it
                 if c["kind"] != "bquery" or "body" not in prog.pre.get(i, {}):
                     continue
@@ -476,6 +476,7 @@ def evaluate(ctx, tables, cases: List[Dict[str, Any]]) -> List[Tuple[Dict[str, A
                 ok1, out1, err1 = gxx(p1.source(), d)
                 if ok1:
                     out += out1
+                    err = err or err1
                 else:
                     nocompile[i] = first_error(err1)
             rest = [i for i, c in enumerate(cases) if c["kind"] == "builtin"]
@@ -487,6 +488,7 @@ def evaluate(ctx, tables, cases: List[Dict[str, Any]]) -> List[Tuple[Dict[str, A
                 if not ok2:
                     raise vlib.InternalError("C11 builtin_exec: the driver program does not compile: " + first_error(err2))
                 out += out2
+                err = err or err2
         if err and "EXC" not in out:
             raise vlib.InternalError("C11 builtin_exec: compiled program failed: " + err)
     finally:
